@@ -106,6 +106,9 @@ def _configs():
                             cells += [shorter, longer]
                         for i in range(len(base)):
                             cells.append(base[:i] + "#" + base[i + 1:])
+                        if type_name == "DateTime":
+                            # an Excel date cell as text: 19 characters whatever the rule makes of the suffix
+                            cells.append(base + " 00:00:00")
                         for edge in "\t\xa0\u2003":
                             cells.append(base[:-1] + edge)
                             cells.append(edge + base[1:])
